@@ -82,6 +82,8 @@ def loop_checks(chk, prog, fn, reader, only_tail=False):
         return
     lp = cand[0]
     w = lp["where"]
+    from rules import common as _common
+    _common.pre_loop_returns(chk, "R-ERR", FN, prog, fn, lp["head"], opaque=[GNEW], what="the block loop")
     names = {fn.local_name(l): l for l in lp["tracked"]}
     if "message" not in names or "iter" not in names:
         chk.blind("VN", FN, "loop state is not (message, iterator): %s" % sorted(names), w)
